@@ -62,6 +62,9 @@ type ExportingProcess struct {
 	wg              sync.WaitGroup
 	isClosed        atomic.Bool
 	stopCh          chan struct{}
+	// sendMutex serializes the update of the sequence number and the transmission of a
+	// message: over UDP, templates are retransmitted from a separate goroutine.
+	sendMutex sync.Mutex
 }
 
 type ExporterTLSClientConfig struct {
@@ -308,6 +311,8 @@ func (ep *ExportingProcess) NewTemplateID() uint16 {
 // createAndSendIPFIXMsg takes in a set as input, creates the IPFIX message, and sends it out.
 // TODO: This method will change when we support sending multiple sets.
 func (ep *ExportingProcess) createAndSendIPFIXMsg(set entities.Set) (int, error) {
+	ep.sendMutex.Lock()
+	defer ep.sendMutex.Unlock()
 	if set.GetSetType() == entities.Data {
 		ep.seqNumber = ep.seqNumber + set.GetNumberOfRecords()
 	}
